@@ -24,7 +24,9 @@ func (ex *Exec) runInit() {
 	}
 	sort.Strings(order)
 	// types first (keeper reads its globals)
-	sort.SliceStable(order, func(i, j int) bool { return strings.HasSuffix(order[i], "/types") && !strings.HasSuffix(order[j], "/types") })
+	sort.SliceStable(order, func(i, j int) bool {
+		return strings.HasSuffix(order[i], "/types") && !strings.HasSuffix(order[j], "/types")
+	})
 	for _, p := range order {
 		pkg := ex.pkgs[p]
 		fn := pkg.Func("init")
@@ -115,6 +117,8 @@ func (ex *Exec) VerifyFunction(fn *ssa.Function, c *Contract) {
 		st.assume(t)
 	}
 	pre = st.clone()
+	ex.topPre = pre
+	ex.topVars = vars
 	nret := 0
 	ex.runFunc(st, fn, args, func(post *State, res []Value) {
 		nret++
@@ -313,9 +317,10 @@ func (ex *Exec) enterLoopHeader(st *State, b *ssa.BasicBlock, prev *ssa.BasicBlo
 	if ex.inInit {
 		return false
 	}
-	// not yet supported without an invariant-driven cut: bounded unrolling is not a proof, so fail loudly
-	n := st.loopSeen[b]
-	st.loopSeen[b] = n + 1
+	if ex.resumeHeader == b {
+		ex.resumeHeader = nil
+		return false
+	}
 	return ex.loopCut(st, b, prev, k)
 }
 
